@@ -3,6 +3,7 @@
    driver only moves characters.  Field kinds: decimal number, hex byte string, and lists
    `L:hex:hex...` (`L` = empty list, `L:` = one empty string). *)
 From Scrapli Require Import Bytes Regex PlatformTypes Generated Generic Netconf Channel Replay Queue Telnet NcSession Session Network SshArgs.
+From Scrapli Require Pipes.
 Open Scope N_scope.
 
 Definition COLON : N := 58.
@@ -396,6 +397,7 @@ Definition dispatch (fs : list bytes) : list bytes :=
   else if beqb name (bs "net") then run_net fs
   else if beqb name (bs "c14") then run_c14 fs
   else if beqb name (bs "login") then run_login fs
+  else if beqb name (bs "c16") then Pipes.run_c16 fs
   else [bs "unknown-case"].
 
 Definition run_line (line : bytes) : bytes := unfields (dispatch (fields line)).
